@@ -102,8 +102,11 @@ def showPhase : Phase RequestLine Headers → String
   | .hdrs _ => "hdrs"
   | .body _ got need => s!"body({got.length},{need})"
 
+/-- the harness's handlers: odd-numbered ones pick their own content type and server identity (the router must
+    overwrite both), even-numbered ones leave the defaults -/
 def handlerResp (h : Nat) : Response :=
-  (Response.new .http10 .ok).apply (.setBody (str s!"handler-{h}"))
+  let r := (Response.new .http10 .ok).apply (.setBody (str s!"handler-{h}"))
+  if h % 2 = 1 then (r.apply (.setContentType .plainText)).apply (.setServer (str "handler-set")) else r
 
 /-- step the concrete-buffer model alongside the window model and flag any difference -/
 def readBoth (st : DState) (inp : Recv) : Conn0 × ReadOut × Conn00 RequestLine Headers × String :=
